@@ -379,6 +379,13 @@ func extractFacts(pkgs []*packages.Package, prog *ssa.Program, byPath map[string
 	sb.WriteString(readPathFacts(p))
 	sb.WriteString(applierFacts(p))
 	sb.WriteString(txApiFacts(p))
+	sb.WriteString(collectStmts(p, map[string]map[string]bool{"db.go": {"Merge": true, "getPendingMergeEntries": true, "reWriteData": true,
+		"isFilterEntry": true, "getRecordFromKey": true, "getMaxFileIDAndFileIDs": true}},
+		"mergeStmts", "db.go: Merge and its helpers: (file:function, kind, source text), in source order"))
+	sb.WriteString(collectStmts(findPkg(pkgs, root+"/ds/list"), map[string]map[string]bool{"list.go": nil},
+		"listStmts", "ds/list/list.go: every function: (file:function, kind, source text), in source order"))
+	sb.WriteString(collectStmts(findPkg(pkgs, root+"/ds/set"), map[string]map[string]bool{"set.go": nil},
+		"setStmts", "ds/set/set.go: every function: (file:function, kind, source text), in source order"))
 	// ---- mode check decision
 	sb.WriteString(modeFacts(p))
 	sb.WriteString(lockFacts(prog, sp))
